@@ -363,6 +363,7 @@ type vRunner struct {
 	w     *bufio.Writer
 	tests map[string]*vT
 	cfgs  []*Config
+	fresh []func() *Config // rebuilds handle h's Config from the options it was created with (never used for a call)
 	idx   int
 	// matcher values are reused for identical specs within a case, the way a table test
 	// shares one matcher across documents
@@ -498,7 +499,12 @@ func (r *vRunner) doMatch(o vOp) {
 			if len(merrs) > 0 {
 				pre = "matcherr"
 			} else {
+				// the expected rendering depends on the OPTIONS of the handle alone: computed with a Config freshly
+				// built from them, so that a Config mutated by earlier calls shows up as a difference
 				c2 := *effCfg
+				if o.H > 0 && o.H <= len(r.fresh) {
+					c2 = *r.fresh[o.H-1]()
+				}
 				pre = "ok:" + vhex([]byte(takeJSONSnapshot(&c2, j2)))
 			}
 		}
@@ -628,6 +634,7 @@ func (r *vRunner) run(c vCase) {
 	vSetEnv(c.CI, c.Upd, c.Col)
 	r.tests = map[string]*vT{}
 	r.cfgs = nil
+	r.fresh = nil
 	r.idx = 0
 	r.mcache = nil
 	_, callerFile := vCaller()
@@ -697,6 +704,28 @@ func (r *vRunner) run(c vCase) {
 				opts = append(opts, JSON(JSONConfig{Width: o.JSON.Width, Indent: o.JSON.Indent, SortKeys: o.JSON.SortKeys}))
 			}
 			r.cfgs = append(r.cfgs, WithConfig(opts...))
+			jsonOpt := o.JSON
+			fnO, dirO, extO, updO := o.Fn, o.Dir, o.Ext, o.Upd
+			r.fresh = append(r.fresh, func() *Config {
+				// option VALUES are rebuilt too: nothing is shared with the Config the calls go through
+				fo := []func(*Config){}
+				if fnO != nil {
+					fo = append(fo, Filename(string(vunhex(*fnO))))
+				}
+				if dirO != nil {
+					fo = append(fo, Dir(r.sb.real(string(vunhex(*dirO)))))
+				}
+				if extO != nil {
+					fo = append(fo, Ext(string(vunhex(*extO))))
+				}
+				if updO != nil {
+					fo = append(fo, Update(*updO))
+				}
+				if jsonOpt != nil {
+					fo = append(fo, JSON(JSONConfig{Width: jsonOpt.Width, Indent: jsonOpt.Indent, SortKeys: jsonOpt.SortKeys}))
+				}
+				return WithConfig(fo...)
+			})
 			r.plain("newconfig fn=%s dir=%s ext=%s upd=%s", vOptHex(o.Fn), dirS, vOptHex(o.Ext), updS)
 		case "setenv":
 			vSetEnv(o.CI, o.UpdVar, o.Colour)
@@ -717,6 +746,7 @@ func (r *vRunner) run(c vCase) {
 			vResetProcess(defdir)
 			r.tests = map[string]*vT{}
 			r.cfgs = nil
+			r.fresh = nil
 			r.plain("newprocess")
 		default:
 			if !r.extraOp(o) {
